@@ -117,6 +117,15 @@ def _replace(tree, old, new):
 
 
 def judge(job):
+    try:
+        return _judge(job)
+    except subprocess.TimeoutExpired as e:
+        return dict(job=job[:5], verdict="timeout", info=str(e)[:120])
+    except Exception as e:  # noqa: BLE001
+        return dict(job=job[:5], verdict="tool-error", info=repr(e)[:160])
+
+
+def _judge(job):
     key, idx, ln, desc, kind, jobs = job
     path, checks, tests = FILES[key]
     src = open(os.path.join("/repo", path)).read()
@@ -143,7 +152,7 @@ def judge(job):
                 return dict(job=job[:5], verdict="killed-by-tests", info=(failed or [p.stdout[-200:]])[0][:160])
         env = dict(os.environ, VERIF_REPO=d, VERIF_JOBS=str(jobs))
         for c in checks:
-            p = subprocess.run([os.path.join(VERIF, "check"), c, "--no-evidence", "--tier", "quick"], cwd=VERIF, env=env, capture_output=True, text=True, timeout=1800)
+            p = subprocess.run([os.path.join(VERIF, "check"), c, "--no-evidence", "--tier", "quick"], cwd=VERIF, env=env, capture_output=True, text=True, timeout=900)
             for l in p.stdout.splitlines():
                 if l.startswith("VIOLATION") and "replay=" in l:
                     rp = l.split("replay=")[1].strip()
